@@ -7,6 +7,7 @@ import (
 	"math/rand"
 	"sort"
 	"sync"
+	"sync/atomic"
 	"time"
 
 	"github.com/bool64/cache"
@@ -40,7 +41,7 @@ func init() {
 		Run:     runC17,
 		Rule: "seeded cases: SkipInterval in {negative,1ms,20ms,200ms,default}, 0..5 callbacks (nil and empty slice), phases of concurrent bursts (1..32 callers) and sequential calls separated by sleeps of {0, Skip/2, 1.3*Skip}; " +
 			"oracle over the callback log and the callers' call/return timestamps (monotonic bracketing only, never a deadline); distinct_nontrivial = distinct (interval, callbacks, phase pattern) cases with at least one accepted and one further call",
-		Required:    []string{"calls.accepted", "calls.rejected", "nothing_to_invalidate", "spacing.pairs", "must_accept.checked", "burst.cases", "chain.cases", "spacing.tightened_by_previous_run", "registered_during_run.calls_checked"},
+		Required:    []string{"calls.accepted", "calls.rejected", "nothing_to_invalidate", "spacing.pairs", "must_accept.checked", "burst.cases", "chain.cases", "spacing.tightened_by_previous_run", "registered_during_run.calls_checked", "panic.second_call_within_interval"},
 		Assumptions: []string{"monotonic clock readings of time.Now() are consistent across goroutines"},
 		Timeout:     func(string) time.Duration { return 45 * time.Minute },
 	})
@@ -60,6 +61,10 @@ func runC17(b *Batch) {
 		go func(i int) {
 			defer wg.Done()
 			defer func() { <-sem }()
+			if i%16 == 11 {
+				c17Panic(b, i)
+				return
+			}
 			c17Case(b, i)
 		}(i)
 	}
@@ -380,5 +385,80 @@ func c17Case(b *Batch, idx int) {
 	}
 	if len(calls) >= 2 {
 		b.R.Nontrivial(fmt.Sprintf("%s/%d/%s", skipName, nCb, pattern))
+	}
+}
+
+// c17Panic: a callback panics during an accepted run and the caller recovers (as a job runner would). The run ran
+// callbacks, so it is an accepted call: the next call inside SkipInterval must be rejected and must run nothing; the
+// Invalidator stays usable (no lock left behind) and accepts again after the interval.
+func c17Panic(b *Batch, idx int) {
+	rng := rand.New(rand.NewSource(b.CaseSeed(idx)))
+	skip := []time.Duration{time.Hour, 0, 30 * time.Millisecond}[rng.Intn(3)] // 0 = default 15s
+	ncb := 2 + rng.Intn(4)
+	panicAt := rng.Intn(ncb)
+	var runs [8]int32
+	armed := int32(1)
+	inv := &cache.Invalidator{SkipInterval: skip}
+	for c := 0; c < ncb; c++ {
+		c := c
+		inv.Callbacks = append(inv.Callbacks, func(context.Context) {
+			atomic.AddInt32(&runs[c], 1)
+			if c == panicAt && atomic.LoadInt32(&armed) == 1 {
+				panic("callback panic")
+			}
+		})
+	}
+	call := func() (err error, panicked bool) {
+		defer func() {
+			if recover() != nil {
+				panicked = true
+			}
+		}()
+		return inv.Invalidate(bg), false
+	}
+	w := map[string]interface{}{"skip": skip.String(), "callbacks": ncb, "panic_at": panicAt}
+	fail := func(what, msg string) {
+		b.R.Violate(b, idx, "C17:panic:"+what, what+": "+msg+fmt.Sprintf(" %v", w), w)
+	}
+	b.R.Eval()
+	t0 := time.Now()
+	_, p1 := call()
+	if !p1 {
+		fail("no-panic", "the callback's panic did not reach the caller")
+		return
+	}
+	atomic.StoreInt32(&armed, 0)
+	done := make(chan struct{})
+	var err2 error
+	go func() { err2, _ = call(); close(done) }()
+	select {
+	case <-done:
+	case <-time.After(20 * time.Second):
+		fail("blocked", "Invalidate does not return after an earlier run was aborted by a panicking callback (lock left behind)")
+		return
+	}
+	el := time.Since(t0)
+	eff := skip
+	if eff == 0 {
+		eff = 15 * time.Second
+	}
+	var total int32
+	for c := range runs {
+		total += atomic.LoadInt32(&runs[c])
+	}
+	b.R.Count("panic.cases", 1)
+	b.R.Nontrivial(fmt.Sprintf("panic/skip=%v/cbs=%d/at=%d", skip, ncb, panicAt))
+	if el < eff { // the second call certainly started within SkipInterval of the accepted (aborted) run
+		b.R.Count("panic.second_call_within_interval", 1)
+		if !errors.Is(err2, cache.ErrAlreadyInvalidated) || total != int32(panicAt+1) {
+			fail("rerun-within-interval", fmt.Sprintf("a call %v after a run that executed %d callback(s) and was aborted by a panic returned %v and callbacks ran %d times in total", el, panicAt+1, err2, total))
+		}
+	}
+	if skip == 30*time.Millisecond {
+		time.Sleep(45 * time.Millisecond)
+		err3, _ := call()
+		if err3 != nil {
+			fail("not-accepted-after-interval", fmt.Sprintf("call after SkipInterval returned %v", err3))
+		}
 	}
 }
